@@ -254,8 +254,27 @@ def r4_stv_elimination_tie(ctx):
               astx.u(hits[0][1])[:100] if hits else "", "no call of tiebreak_set with the 'first_place' rule in the STV module: an elimination tie has no random fallback")
 
 
+def r5_winner_removed_exactly(ctx):
+    """The documented probabilities of a multi-seat RandomDictator / BoostedRandomDictator run are products over the seats:
+    after a seat is filled the next draw is over the profile without that one candidate.  That holds only if remove_cand,
+    given the single name, removes exactly that name (a bare string tested with `in` is a substring test: electing "Anna"
+    would take "Ann" out as well) and keeps every ballot that still ranks someone.  Decided by the clauses of C12.R1."""
+    from rules import c12
+    sub = type(ctx)(ctx.prog, ctx.prop, ctx.tier)
+    c12.r1_filter_polarity(sub)
+    n = 0
+    for o in sub.obs:
+        if (o.function or "").endswith("remove_cand"):
+            o.rule = "C17.R5"
+            ctx.obs.append(o)
+            n += 1
+    if n < 2:
+        ctx.vanished(f"remove_cand obligations: only {n}")
+
+
 RULES = [
     ("C17.R4", r4_stv_elimination_tie, 1, "STV elimination ties go through tiebreak_set with the 'first_place' rule (the only place with a random fallback)"),
+    ("C17.R5", r5_winner_removed_exactly, 2, "prerequisite: the seat winner, and nobody else, is removed before the next draw (C12.R1 on remove_cand)"),
     ("C17.R1", r1_random_dictator, 3, "RandomDictator: weighted ballot draw aligned with weights; first position wins; random tiebreak on ties"),
     ("C17.R2", r2_boosted, 10, "BoostedRandomDictator: mixing threshold 1/(c-1), squares law pipeline, alignment, dictator branch"),
     ("C17.R3", r3_random_tiebreak, 2, "random tiebreak is a uniform permutation of exactly the tied set"),
